@@ -60,7 +60,9 @@ ActionLog(a) == Can /\ Step("action_should_log_request", <<a.id>>, {}, {})
 ActionDrop(a) == Can /\ Step("action_drop", <<a.id>>, {}, {a})
 HmapCreate(kind) == Can /\ Room("hmap") /\ Step("caller_hmap_create", <<kind>>, {NewK("hmap", kind)}, {})
 \* a = 0 stands for the NULL action: the input list itself comes back (no new object)
-HeaderFilter(aid, h) == Can /\ (aid = 0 \/ Room("hmap")) /\ Step("action_header_filter_filter", <<aid, h.id>>, IF aid = 0 THEN {} ELSE {New("hmap")}, {})
+\* add = the caller also asks for the rule-ids header
+HeaderFilter(aid, h, add) == Can /\ (aid = 0 \/ Room("hmap")) /\ Step("action_header_filter_filter", <<aid, h.id, add>>,
+                                   IF aid = 0 THEN {} ELSE {NewK("hmap", IF add THEN "out_ids" ELSE "out")}, {})
 \* only an action that carries body filters yields a filter object; the others answer NULL
 \* hid = 0: the caller passes a transient text/html header list of its own (created and released around the call);
 \* hid = NoHeaders: a NULL header list; otherwise a live hmap
@@ -95,9 +97,9 @@ Next ==
                               \/ SetRemoteAddr(r, 0) \/ (\E p \in Of("proxies") : SetRemoteAddr(r, p.id))
   \/ \E k \in {"redirect", "filters", "empty", "nul"} : ActionCreate(k)
   \/ \E a \in Of("action") : ActionSerialize(a) \/ ActionStatus(a) \/ ActionLog(a) \/ ActionDrop(a)
-                             \/ FilterCreate(a, 0) \/ FilterCreate(a, NoHeaders) \/ (\E h \in Of("hmap") : FilterCreate(a, h.id) \/ HeaderFilter(a.id, h))
+                             \/ FilterCreate(a, 0) \/ FilterCreate(a, NoHeaders) \/ (\E h \in Of("hmap") : FilterCreate(a, h.id) \/ HeaderFilter(a.id, h, FALSE) \/ HeaderFilter(a.id, h, TRUE))
   \/ \E k \in {"empty", "two", "html", "bad"} : HmapCreate(k)
-  \/ \E h \in Of("hmap") : HeaderFilter(0, h) \/ HmapFree(h)
+  \/ \E h \in Of("hmap") : HeaderFilter(0, h, FALSE) \/ HmapFree(h)
   \/ \E p \in Payloads : BufferCreate(p)
   \/ \E b \in Of("buffer") : BufferDrop(b) \/ FilterFilter(0, b) \/ (\E f \in Of("filter") : FilterFilter(f.id, b))
   \/ \E f \in Of("filter") : FilterClose(f) \/ FilterDrop(f)
